@@ -351,6 +351,14 @@ where
         if reduce_action {
             let reducer_start = Instant::now();
 
+            #[cfg(rs_store_verif)]
+            crate::verif::pt(
+                "red.begin",
+                crate::verif::store_id(&self.metrics),
+                0,
+                None,
+                0,
+            );
             for reducer in self.reducers.lock().unwrap().iter() {
                 match reducer.reduce(&state, action) {
                     DispatchOp::Dispatch(new_state, effect) => {
